@@ -269,9 +269,33 @@ def argsort_contract(valid):
     return ""
 
 
+def argsort_clauses(ind="ind", length="len", sel="sel", q1="gq1", q2="gq2"):
+    """Postcondition of argsort(sel, v, len) at two positions q1 < q2 < len, written from the property statement.
+    Returns (rule-defined predicate, structural clauses over ia = ind[q1], ib = ind[q2], ordering clauses over
+    va = v[ia], vb = v[ib]).  The SAME clause texts are asserted on the real argsort (group argsort.<rule>) and
+    assumed by the call-site stub of argsort in the solver skeletons (props/skel.py)."""
+    ok = "(" + " || ".join("%s == SortRule_%s" % (sel, r) for r in DOC_REAL) + ")"
+    st = [("result has len entries", "%s.size == %s" % (ind, length)),
+          ("entries in [0, len)", "0 <= ia && ia < {n} && 0 <= ib && ib < {n}".format(n=length)),
+          ("injective (permutation of 0..len-1)", "ia != ib")]
+    nn = "(va == va && vb == vb)"
+    od = []
+    for r, d in DOC_REAL.items():
+        if r == "BothEnds":
+            p1, p2 = "PMAP(%s, %s)" % (q1, length), "PMAP(%s, %s)" % (q2, length)
+            od.append(("BothEnds: position q holds source position p(q) of the descending order",
+                       "!(%s == SortRule_BothEnds && %s) || (%s != %s && !((%s < %s) ? (vb > va) : (va > vb)))" % (sel, nn, p1, p2, p1, p2)))
+        else:
+            cond = d.replace("x", "XX").replace("y", "YY").replace("XX", "vb").replace("YY", "va")
+            od.append(("%s: image ordered by the documented key (no later element strictly precedes an earlier one)" % r,
+                       "!(%s == SortRule_%s && %s) || !(%s)" % (sel, r, nn, cond)))
+    return ok, st, od
+
+
 def harness_argsort(allrules):
-    """Postcondition of argsort at the Skolem positions gq1 < gq2; the sort/copy contracts are instantiated at
-    gs1, gs2 (BothEnds: the source positions).  RULE_UNDER_TEST selects the rule per group."""
+    """RULE_UNDER_TEST selects the rule per group; the sort/copy contracts are instantiated at gs1, gs2
+    (BothEnds: the source positions)."""
+    ok, st, od = argsort_clauses()
     h = ['#line 1 "harness/C18.argsort(generated)"']
     h.append("void h_argsort(void) {")
     h.append("  Index len = nondet_Index(); __CPROVER_assume(0 <= len && len <= MAXLEN);")
@@ -280,22 +304,15 @@ def harness_argsort(allrules):
     h.append("  SortRule sel = RULE_UNDER_TEST;")
     h.append("  if (sel == SortRule_BothEnds) { gs1 = PMAP(gq1, len); gs2 = PMAP(gq2, len); } else { gs1 = gq1; gs2 = gq2; }")
     h.append("  verif_exc = 0; IndexArray ind = argsort(sel, v, len);")
-    ok = "(" + " || ".join("sel == SortRule_%s" % r for r in DOC_REAL) + ")"
     h.append("  if (!%s) { __CPROVER_assert(verif_exc == EXC_invalid_argument, \"argsort: rule not defined for real values is rejected with invalid_argument\"); }" % ok)
     h.append("  else {")
     h.append("    __CPROVER_assert(verif_exc == 0, \"argsort: supported rule accepted\");")
-    h.append("    __CPROVER_assert(ind.size == len, \"argsort: result has len entries\");")
-    h.append("    Index a = ind.data[gq1], b = ind.data[gq2];")
-    h.append("    __CPROVER_assert(0 <= a && a < len && 0 <= b && b < len, \"argsort: entries in [0, len)\");")
-    h.append("    __CPROVER_assert(a != b, \"argsort: injective (permutation of 0..len-1)\");")
-    h.append("    if (v[a] == v[a] && v[b] == v[b]) { Scalar x, y;")
-    for r, d in DOC_REAL.items():
-        if r == "BothEnds":
-            h.append("      if (sel == SortRule_BothEnds) { if (gs1 < gs2) { x = v[b]; y = v[a]; } else { x = v[a]; y = v[b]; }")
-            h.append("        __CPROVER_assert(gs1 != gs2 && !(x > y), \"argsort.BothEnds: position q holds source position p(q) of the descending order\"); }")
-        else:
-            h.append("      if (sel == SortRule_%s) { x = v[b]; y = v[a]; __CPROVER_assert(!(%s), \"argsort.%s: image ordered by the documented key (no later element strictly precedes an earlier one)\"); }" % (r, d, r))
-    h.append("    }")
+    h.append("    Index ia = ind.data[gq1], ib = ind.data[gq2];")
+    for lab, e in st:
+        h.append("    __CPROVER_assert(%s, \"argsort: %s\");" % (e, lab))
+    h.append("    Value va = v[ia], vb = v[ib];")
+    for lab, e in od:
+        h.append("    __CPROVER_assert(%s, \"argsort: %s\");" % (e, lab))
     h.append("  }")
     h.append("  CANARY();\n}")
     return "\n".join(h) + "\n"
